@@ -163,7 +163,8 @@ def wSentinelHello : Bytes :=
   [95,95,115,101,110,116,105,110,101,108,95,95,58,104,101,108,108,111]
 
 /-- `parseCommandInt`: digits only, −1 otherwise (the empty string is 0).
-    Unbounded: the check assumes the count argument is below 2^62. -/
+    Unbounded: the check assumes the count argument is below 2^63 (the Go
+    accumulator is an int64 and wraps beyond that). -/
 def parseCommandInt (arg : Bytes) : Int :=
   if arg.all isDigit then Int.ofNat (arg.foldl (fun v b => v * 10 + (b.toNat - 48)) 0) else -1
 
@@ -175,7 +176,7 @@ def numkeysStepIdx (numkeysIdx firstKeyIdx keyStep : Int) (fixedKeys : List Int)
   else if keyStep ≤ 0 then none
   else
     let numkeys := parseCommandInt (args.getD numkeysIdx.toNat [])
-    if numkeys ≤ 0 then none
+    if numkeys ≤ 0 ∨ numkeys > n then none
     else
       let lastKeyIdx := firstKeyIdx + (numkeys - 1) * keyStep
       if firstKeyIdx < 0 ∨ lastKeyIdx ≥ n then none
